@@ -242,12 +242,22 @@ def judge(item: dict, run: Any, r: Any, res: Result, current_item: dict) -> None
         if len(item["phases"]) > 1 and r.stop_after_event is not None and not any(
                 n == "PhaseStarted" and _phase_name(e) == last_phase for e, n in list(zip(events, names))[: r.stop_after_event + 1]):
             res.count("r2_stop_requested_with_phases_still_to_come")
+        late: dict[str, int] = {}
         for e, n, t in zip(events, names, r.event_times):
             # a scenario is *started* when its worker announces it (queues the event), not when the consumer reads it:
             # workers may run ahead of the consumer, and events queued before the stop request are still delivered
             started_at = r.put_times.get(id(e), t)
             if n == "ScenarioStarted" and started_at > T:
-                bad("scenario_started_after_stop_request", phase=_phase_name(e))
+                late[_phase_name(e)] = late.get(_phase_name(e), 0) + 1
+        for phase_name, n_late in late.items():
+            # one announcement per producing thread may be in flight: the thread read the stop flag (not set), was
+            # pre-empted, the stop arrived, and the thread then queued the event it had already decided on (the same
+            # allowance as for the one request in flight per worker below); the stateful phase has one producing thread
+            in_flight = 1 if phase_name == "STATEFUL_TESTING" else item["workers"]
+            if n_late > in_flight:
+                bad("scenario_started_after_stop_request", phase=phase_name)
+            else:
+                res.count("scenario_announcements_in_flight_at_stop")
         per_thread: dict[str, int] = {}
         for x in r.exchanges:
             if x.time > T:
